@@ -27,7 +27,7 @@ REAL = ["bec2format.bf3file / bec2file / crypto registry", "register_crypto_plug
         "when the fault arm is active)"]
 STUBS = ["medium: SimFS", "RNG: SimRng", "cipher fault wrapper FaultyAES / abstract base class for 'missing'",
          "RefAES, RefDir (independent models)"]
-PROBES = ["blocks-derived-from-configuration", "runs-with-assertions-disabled", "retry-after-cipher-failure", "marked-component-without-enc-tag", "plain-configuration-replaced-by-set_config", "sibling-package-made-plain", "concurrent-writers-same-key", "rewritten-under-second-key", "content-longer-than-4096", "content-multiple-of-16", "content-trailing-zero", "content-all-zero", "cipher-missing", "cipher-raised-at-k",
+PROBES = ["cipher-takes-whole-blocks-only", "blocks-derived-from-configuration", "runs-with-assertions-disabled", "retry-after-cipher-failure", "marked-component-without-enc-tag", "plain-configuration-replaced-by-set_config", "sibling-package-made-plain", "concurrent-writers-same-key", "rewritten-under-second-key", "content-longer-than-4096", "content-multiple-of-16", "content-trailing-zero", "content-all-zero", "cipher-missing", "cipher-raised-at-k",
           "write-failed-no-file", "write-failed-file-exists", "rewrite-same-ciphertext", "bec2-framing", "config-component",
           "secrecy-needles-checked"]
 ASSUMPTIONS = ["encrypted content is defined up to its declared length; the reader returns the zero-padded plaintext"]
@@ -54,6 +54,21 @@ def make_faulty(real_cls, state):
             return real_cls.decrypt(self, data)
 
     return FaultyAES
+
+
+def make_strict(real_cls):
+    """a crypto unit behind the plug-in interface that takes whole blocks only (it does not pad for the caller);
+    its MAC is, as specified for the adapter, the last block of the zero-padded CBC"""
+    class StrictAES(real_cls):
+        def encrypt(self, data):
+            if len(data) % 16:
+                raise ValueError("crypto unit: %d bytes is not a whole number of blocks" % len(data))
+            return real_cls.encrypt(self, data)
+
+        def mac(self, data):
+            return real_cls.encrypt(self, data)[-16:]
+
+    return StrictAES
 
 
 def gen(st, tier):
@@ -104,7 +119,7 @@ def gen(st, tier):
                                                              "s": w.getrandbits(32)}, "alen": None, "enc": False})
             spec["plaincfg"] = True
     spec["rekey"] = G.session_key_spec(w, allow_default=(kind == "bf3")) if w.random() < 0.5 else None
-    spec["cipher"] = f.choice(["real", "real", "real", "missing", "raise", "raise", "raise"])
+    spec["cipher"] = f.choice(["real", "real", "real", "strict", "missing", "raise", "raise", "raise"])
     spec["fail_frac"] = f.random()
     return spec
 
@@ -226,6 +241,9 @@ def run(case):
             env.crypto.register_AES128(make_faulty(env.REAL_AES, state))
         elif mode == "missing":
             env.crypto.register_AES128(env.crypto.AES128)
+        elif mode == "strict":
+            env.crypto.register_AES128(make_strict(env.REAL_AES))
+            out.probes["cipher-takes-whole-blocks-only"] += 1
         if case["obj"].get("config") is not None and case.get("rng", 0) % 3 == 0 and mode == "real":
             # a sibling package in the same process gets the same configuration and is then turned into a
             # plain one by editing its own configuration component in place: no business of this package
